@@ -76,7 +76,14 @@ FragRows == <<
   \* ---- Hangul jamo
   << 4352, "V", <<>>,        0,   <<>>,         FALSE, "L",   FALSE, "U" >>,  \* U+1100 CHOSEONG KIYEOK (L)
   << 4449, "V", <<>>,        0,   <<>>,         FALSE, "L",   FALSE, "U" >>,  \* U+1161 JUNGSEONG A (V)
+  << 4370, "V", <<>>,        0,   <<>>,         FALSE, "L",   FALSE, "U" >>,  \* U+1112 CHOSEONG HIEUH (last L)
+  << 4371, "V", <<>>,        0,   <<>>,         FALSE, "L",   FALSE, "U" >>,  \* U+1113 CHOSEONG NIEUN-KIYEOK (just after the L range)
+  << 4469, "V", <<>>,        0,   <<>>,         FALSE, "L",   FALSE, "U" >>,  \* U+1175 JUNGSEONG I (last V)
+  << 4470, "V", <<>>,        0,   <<>>,         FALSE, "L",   FALSE, "U" >>,  \* U+1176 JUNGSEONG A-O (just after the V range)
+  << 4519, "V", <<>>,        0,   <<>>,         FALSE, "L",   FALSE, "U" >>,  \* U+11A7 JUNGSEONG O-YAE (= TBase: NOT a trailing consonant)
   << 4520, "V", <<>>,        0,   <<>>,         FALSE, "L",   FALSE, "U" >>,  \* U+11A8 JONGSEONG KIYEOK (T)
+  << 4546, "V", <<>>,        0,   <<>>,         FALSE, "L",   FALSE, "U" >>,  \* U+11C2 JONGSEONG HIEUH (last T)
+  << 4547, "V", <<>>,        0,   <<>>,         FALSE, "L",   FALSE, "U" >>,  \* U+11C3 JONGSEONG KIYEOK-RIEUL (just after the T range)
   \* ---- Latin Extended Additional
   << 7838, "M", <<223>>,     0,   <<>>,         FALSE, "L",   FALSE, "U" >>,  \* U+1E9E CAPITAL SHARP S -> U+00DF
   << 7841, "V", <<>>,        0,   <<97,803>>,   FALSE, "L",   FALSE, "U" >>,  \* U+1EA1 a dot below
@@ -108,6 +115,10 @@ FragRows == <<
   \* ---- Hangul syllables (decomposition is arithmetic)
   << 44032, "V", <<>>,       0,   <<>>,         FALSE, "L",   FALSE, "U" >>,  \* U+AC00 GA  (LV)
   << 44033, "V", <<>>,       0,   <<>>,         FALSE, "L",   FALSE, "U" >>,  \* U+AC01 GAG (LVT)
+  << 44059, "V", <<>>,       0,   <<>>,         FALSE, "L",   FALSE, "U" >>,  \* U+AC1B GAH (LVT with the last T)
+  << 44060, "V", <<>>,       0,   <<>>,         FALSE, "L",   FALSE, "U" >>,  \* U+AC1C GAE (the next LV)
+  << 55176, "V", <<>>,       0,   <<>>,         FALSE, "L",   FALSE, "U" >>,  \* U+D788 HI (last LV)
+  << 55203, "V", <<>>,       0,   <<>>,         FALSE, "L",   FALSE, "U" >>,  \* U+D7A3 HIH (last syllable)
   \* ---- variation selector, fullwidth / halfwidth forms, specials
   << 65039, "I", <<>>,       0,   <<>>,         FALSE, "NSM", TRUE,  "T" >>,  \* U+FE0F VARIATION SELECTOR-16
   << 65294, "M", <<46>>,     0,   <<>>,         FALSE, "CS",  FALSE, "U" >>,  \* U+FF0E FULLWIDTH FULL STOP -> .
@@ -290,7 +301,8 @@ ProcLabel(lab) ==
       IF ~d.ok THEN [err |-> TRUE, unspec |-> FALSE, u |-> lab]
       ELSE IF d.s = <<>> \/ (\A i \in 1..Len(d.s) : d.s[i] < 128) THEN [err |-> TRUE, unspec |-> FALSE, u |-> lab]
       ELSE IF \E i \in 1..Len(d.s) : ~Known(d.s[i]) THEN [err |-> FALSE, unspec |-> TRUE, u |-> lab]
-      ELSE IF NFCx(d.s).missing THEN [err |-> FALSE, unspec |-> TRUE, u |-> lab]
+      ELSE IF NFCx(d.s).missing \/ (\E i \in 1..Len(NFCx(d.s).out) : ~Known(NFCx(d.s).out[i]))
+        THEN [err |-> FALSE, unspec |-> TRUE, u |-> lab]
       ELSE [err |-> ~ValidLabel(d.s), unspec |-> FALSE, u |-> d.s]
   ELSE [err |-> ~ValidLabel(lab), unspec |-> FALSE, u |-> lab]
 
@@ -309,7 +321,8 @@ ProcessX(cps, strict) ==
   IF \E i \in 1..Len(cps) : ~Known(cps[i]) THEN [ok |-> FALSE, unspec |-> TRUE, labels |-> <<>>]
   ELSE IF m.bad THEN [ok |-> FALSE, unspec |-> FALSE, labels |-> <<>>]
   ELSE LET n == NFCx(m.s) IN
-    IF n.missing THEN [ok |-> FALSE, unspec |-> TRUE, labels |-> <<>>]
+    IF n.missing \/ (\E i \in 1..Len(n.out) : ~Known(n.out[i]))      \* e.g. a Hangul syllable computed arithmetically
+      THEN [ok |-> FALSE, unspec |-> TRUE, labels |-> <<>>]
     ELSE LET labs == Split(n.out, 46)
              pl == [i \in 1..Len(labs) |-> ProcLabel(labs[i])]
          IN IF \E i \in 1..Len(pl) : pl[i].unspec \/ ~PunyEncodable(pl[i].u)
